@@ -23,6 +23,7 @@ type ViolationRec struct {
 	Trace    []string  `json:"trace"`
 	RunIndex uint64    `json:"run_index"`
 	History  *HistSpec `json:"history,omitempty"`
+	Worker   int       `json:"-"` // set by the orchestrator when it merges
 }
 
 // ScenStat aggregates per scenario.
